@@ -569,7 +569,7 @@ def run_machine(draws, state, tier):
     res.count("ops", len(seq))
     res.count("live_schemas", len(live))
     res.digest = hashlib.sha256(
-        repr((seq, [v.to_json() for v in V])).encode()).hexdigest()
+        repr((seq, [(v.oracle, v.key) for v in V])).encode()).hexdigest()
     res.samples = {"source": entry.name, "ops": [list(s) for s in seq]}
     return res
 
